@@ -10,9 +10,21 @@
 #include <set>
 #include <string>
 
+static inline std::string features(Ref &R) {
+  DerivFacts F(R);
+  std::string s;
+  if (F.untranslated_multi_origin()) s += "F1 ";
+  if (F.shared_anode_multi_split()) s += "F2 ";
+  return s;
+}
 static inline std::string classify_known(const std::set<std::string> &enabled, const std::string &prop, const std::string &kind,
                                          const Gram &g, const std::vector<int> &w, const Flags &f, Ref &R, const ParseObs &o) {
-  (void) enabled; (void) prop; (void) kind; (void) g; (void) w; (void) f; (void) R; (void) o;
+  (void) g; (void) w; (void) f; (void) o;
+  if ((prop == "C03" || prop == "C04") && (kind == "missing-translation" || kind == "missing-minimal" || kind == "root-cost-not-min" || kind == "non-minimal-tree")) {
+    DerivFacts F(R);
+    if (enabled.count("D24") && F.untranslated_multi_origin()) return "D24";
+    if (enabled.count("D23") && F.shared_anode_multi_split()) return "D23";
+  }
   return "";
 }
 static inline std::string classify_known_crash(const std::set<std::string> &enabled, const std::string &prop,
